@@ -389,10 +389,16 @@ func cmdCheck(args []string) {
 	fmt.Printf("property=%s tier=%s functions=%d obligations=%d discharged=%d violations=%d engine_errors=%d wall=%.1fs\n",
 		id, *tier, len(funcs), total, discharged, violations+bindViolations, engineErrors, time.Since(start).Seconds())
 	if violations+bindViolations > 0 {
+		if !*keep {
+			os.RemoveAll(work) // os.Exit skips the deferred removal
+		}
 		os.Exit(1)
 	}
 	if engineErrors > 0 || total == 0 || (pc.MinOblig > 0 && total < pc.MinOblig) {
 		fmt.Printf("ERROR property=%s undecided: engine errors=%d obligations=%d (minimum %d)\n", id, engineErrors, total, pc.MinOblig)
+		if !*keep {
+			os.RemoveAll(work)
+		}
 		os.Exit(2)
 	}
 }
